@@ -25,6 +25,7 @@ RULE = (
     "one loop iteration; wrapped function that is itself a wrapper object (timeout(10), throttle); "
     "two overlapping calls through one wrapped function; one wrapper used under two event loops in a row; a second timeout derived from a timeout wrapper, both used afterwards; non-trivial = not the plain 'value before deadline, no cancel' case"
 )
+RULE += ' Rounds 10-11: MANY calls (5-70 (100)) through one wrapper started 1/64 apart; deadlines off the millisecond grid / tiny / huge / int with the function finishing just before / after.'
 ASSUMPTIONS = [
     "virtual time in exact dyadic units; timers with different deadlines fire in deadline order",
     "the wrapped function handles cancellation as characterised by its kind",
